@@ -15,7 +15,7 @@ Record H15_parts (c : case) : Prop := {
   hp_cmd_start : starts_cmd (c_cmd c) = true;
   hp_restart_wf : pieces_wf (c_restart c) = true;
   hp_restart_start : match c_restart c with [] => true | r => starts_cmd r end = true;
-  hp_name : safe_name (st_name (c_step c)) = true;
+  hp_name : safe_name (c_be c) (st_name (c_step c)) = true;
   hp_desc : safe_quoted (oneline (st_desc (c_step c))) = true;
   hp_nodup : nodup_keys (st_res (c_step c)) = true;
   hp_nocmd : has (s "cmd") (st_res (c_step c)) = false;
@@ -436,7 +436,7 @@ Section Safe.
   Hypothesis BN : count_ok (b_kw b) RNodes = true.
   Hypothesis BP : count_ok (b_kw b) RTasks = true.
   Hypothesis BV : forallb (val_safe (b_kw b)) [RReservation; RQos; RGpus] = true.
-  Hypothesis NM : safe_name (st_name st) = true.
+  Hypothesis NM : safe_name Slurm (st_name st) = true.
   Hypothesis DS : safe_quoted (oneline (st_desc st)) = true.
   Let bd := slurm_bd b vh vb vq.
   Let resources := slurm_resources bd st.
@@ -497,8 +497,8 @@ Section Safe.
         unfold tl, tl_, decl, resources, slurm_resources in T. cbn [lookup] in T.
         repeat match type of T with context [str_eqb ?x ?y] =>
           let r := eval vm_compute in (str_eqb x y) in change (str_eqb x y) with r in T end. cbv iota in T.
-        destruct (truthy (VStr (under (st_name st)))); inversion T; subst. simpl render.
-        unfold safe_name in NM. destruct (st_name st) eqn:N0; try discriminate. rewrite <- N0 in *.
+        destruct (truthy (VStr (slurm_job_name (st_name st)))); inversion T; subst. simpl render.
+        unfold safe_name, job_name in NM. destruct (st_name st) eqn:N0; try discriminate. rewrite <- N0 in *.
         rewrite forallb_forall in NM. split.
         * unfold noquote. apply forallb_forall. intros c I. apply NM in I. apply andb_true_iff in I. destruct I as [I _].
           apply safe_char_plain in I. destruct I as [I _]. unfold plain_char in I. apply andb_true_iff in I. tauto.
@@ -659,7 +659,7 @@ Section SlurmScript.
   Lemma lines_read : RL lines = raw_pairs b st vh vb vq /\ CL lines = true.
   Proof.
     destruct HP, BP. apply slurm_lines_read.
-    - apply header_safe; auto.
+    - apply header_safe; auto. rewrite <- BE. auto.
     - apply (shell_safe (c_be c)). constructor; auto.
   Qed.
 
